@@ -117,6 +117,10 @@ func (req Request) MarshalSize() int {
 
 	if len(req.Body) != 0 {
 		req.Header["Content-Length"] = HeaderValue{strconv.FormatInt(int64(len(req.Body)), 10)}
+	} else {
+		// a length left in the header map by an earlier message with a body
+		// would make the reader take what follows for the body
+		delete(req.Header, "Content-Length")
 	}
 
 	n += req.Header.marshalSize()
@@ -150,6 +154,10 @@ func (req Request) MarshalTo(buf []byte) (int, error) {
 
 	if len(req.Body) != 0 {
 		req.Header["Content-Length"] = HeaderValue{strconv.FormatInt(int64(len(req.Body)), 10)}
+	} else {
+		// a length left in the header map by an earlier message with a body
+		// would make the reader take what follows for the body
+		delete(req.Header, "Content-Length")
 	}
 
 	pos += req.Header.marshalTo(buf[pos:])
